@@ -1,5 +1,5 @@
 (* Lemmas about Model/Combiner.v (C10, and the combiner part of C11). *)
-From V Require Import Model.Combiner.
+From V Require Import Model.Combiner Spec.CombinerSpec.
 From Coq Require Import ZifyN ZifyNat ZifyBool.
 Ltac Zify.zify_post_hook ::= Z.div_mod_to_equations.
 Open Scope N_scope.
@@ -148,9 +148,6 @@ Proof. rewrite accept_spec. unfold slot_ix, slen. lia. Qed.
 Lemma slot_ix_octet c cur : accept c cur = true -> c_seq c < 256 -> c_seq c = N.of_nat (S (slot_ix c)).
 Proof. rewrite accept_spec. unfold slot_ix. lia. Qed.
 
-(* ------------------------------------------------ one step, characterised *)
-Definition cur_of (s : option slots) (c : concat) : slots :=
-  match s with Some l => l | None => fresh c end.
 
 Lemma sstep_unfold s p c : hdr p = Some c ->
   sstep s p =
@@ -271,24 +268,7 @@ Proof.
 Qed.
 
 (* ------------------------------------------------------------- invariants *)
-(* sequence numbers are octets (they are read from an octet string) *)
-Definition seq_octet (p : dsm) : Prop := forall c, hdr p = Some c -> c_seq c < 256.
 
-(* slot i of the array stored under key k holds, if anything, a PDU that has
-   arrived, carries key k, sequence number i+1 and the total the array was
-   sized by *)
-Definition slot_ok (seen : list dsm) (k : ckey) (n i : nat) (o : option dsm) : Prop :=
-  match o with
-  | None => True
-  | Some q => In q seen /\ exists c, hdr q = Some c /\ key_of q c = k /\
-              c_seq c = N.of_nat (S i) /\ c_total c = N.of_nat n
-  end.
-Definition slots_ok (seen : list dsm) (k : ckey) (l : slots) : Prop :=
-  forall i o, nth_error l i = Some o -> slot_ok seen k (List.length l) i o.
-(* a stored array is never complete (a complete one is delivered and dropped) *)
-Definition st_inv (seen : list dsm) (k : ckey) (s : option slots) : Prop :=
-  match s with None => True | Some l => slots_ok seen k l /\ full l = false end.
-Definition registry_inv (seen : list dsm) (r : registry) : Prop := forall k, st_inv seen k (lk k r).
 
 Lemma slot_ok_mono seen seen' k n i o : incl seen seen' -> slot_ok seen k n i o -> slot_ok seen' k n i o.
 Proof. intros Hi. destruct o as [q|]; cbn; [|auto]. intros [H1 H2]. split; [apply Hi; exact H1|exact H2]. Qed.
@@ -354,18 +334,7 @@ Proof.
 Qed.
 
 (* --------------------------------------------- what a delivery looks like *)
-(* a concatenated delivery for key k triggered by p: N >= 1 entries, entry i
-   (from 0) is a PDU that has arrived, with key k, sequence i+1 and total N;
-   p itself is the entry at its sequence number *)
-Definition delivery_ok (seen : list dsm) (k : ckey) (p : dsm) (cb : callback) : Prop :=
-  (forall i o, nth_error cb i = Some o ->
-     exists q c, o = Some q /\ In q seen /\ hdr q = Some c /\ key_of q c = k /\
-                 c_seq c = N.of_nat (S i) /\ c_total c = N.of_nat (List.length cb)) /\
-  (exists c, hdr p = Some c /\ nth_error cb (slot_ix c) = Some (Some p) /\ c_seq c = N.of_nat (S (slot_ix c))).
 
-(* the arriving segment completes the message: every slot except its own is filled *)
-Definition last_missing (c : concat) (cur : slots) : Prop :=
-  accept c cur = true /\ forall j, nth_error cur j = Some None -> j = slot_ix c.
 
 Lemma last_missing_full c p cur : accept c cur = true ->
   (full (put_pure (slot_ix c) p cur) = true <-> forall j, nth_error cur j = Some None -> j = slot_ix c).
@@ -443,10 +412,6 @@ Proof.
   - destruct S as [-> ->]. auto.
 Qed.
 
-(* every callback ever made, on any history from the empty registry *)
-Definition callback_ok (seen : list dsm) (p : dsm) (cb : callback) : Prop :=
-  (hdr p = None /\ cb = [Some p]) \/
-  (exists c, hdr p = Some c /\ delivery_ok seen (key_of p c) p cb).
 
 Theorem deliveries_complete : forall h1 p h2 r outs, Forall seq_octet (h1 ++ p :: h2) ->
   crun [] (h1 ++ p :: h2) = Ok (r, outs) ->
@@ -471,3 +436,153 @@ Proof.
     + rewrite W2 in Hin; [destruct Hin|]. intros [A' _]. congruence.
   - left. destruct W as [-> _]. destruct Hin as [<-|[]]. auto.
 Qed.
+
+
+Lemma kv_lookup_in k m d : kv_lookup k m = Some d -> exists k', In (k', d) m.
+Proof.
+  induction m as [|[k' v] m IH]; cbn [kv_lookup]; [discriminate|].
+  destruct (k =? k').
+  - intros H; inversion H; subst. exists k'. left; reflexivity.
+  - intros H. destruct (IH H) as [k2 H2]. exists k2. right; exact H2.
+Qed.
+Lemma concat_of_ie0_seq d c : concat_of_ie0 d = Ok c -> In (c_seq c) d.
+Proof.
+  destruct d as [|a [|b [|e d]]]; cbn; try discriminate.
+  intros H; inversion H; subst; cbn. auto.
+Qed.
+Lemma concat_of_ie8_seq d c : concat_of_ie8 d = Ok c -> In (c_seq c) d.
+Proof.
+  unfold concat_of_ie8. destruct (len d <? 2); [discriminate|].
+  destruct d as [|a [|b [|e [|f d]]]]; cbn; try discriminate.
+  intros H; inversion H; subst; cbn. auto.
+Qed.
+Lemma concat_ie8_branch_seq m c : concat_ie8_branch m = Ok (Some c) ->
+  exists e, In e m /\ In (c_seq c) (snd e).
+Proof.
+  unfold concat_ie8_branch. destruct (kv_lookup 8 m) as [d|] eqn:L; [|discriminate].
+  destruct (4 <=? len d); [|discriminate].
+  destruct (concat_of_ie8 d) as [c'| |] eqn:E; cbn [obind]; try discriminate.
+  intros H; inversion H; subst c'. apply kv_lookup_in in L as [k' L].
+  exists (k', d). split; [exact L|]. apply concat_of_ie8_seq; exact E.
+Qed.
+Lemma seq_octet_of_udh p : udh_octets (d_udh p) -> seq_octet p.
+Proof.
+  intros Hu c Hh. pose proof (concatenated_header_hdr p) as H. rewrite Hh in H.
+  assert (X : exists e, In e (udh_map (d_udh p)) /\ In (c_seq c) (snd e)).
+  { unfold concatenated_header in H. destruct (kv_lookup 0 (udh_map (d_udh p))) as [d|] eqn:L.
+    - destruct (3 <=? len d).
+      + destruct (concat_of_ie0 d) as [c'| |] eqn:E; cbn [obind] in H; try discriminate.
+        inversion H; subst c'. apply kv_lookup_in in L as [k' L].
+        exists (k', d). split; [exact L|]. apply concat_of_ie0_seq; exact E.
+      + apply concat_ie8_branch_seq; exact H.
+    - apply concat_ie8_branch_seq; exact H. }
+  destruct X as (e & He & Hs). unfold udh_octets in Hu. rewrite Forall_forall in Hu.
+  specialize (Hu e He). rewrite Forall_forall in Hu. apply Hu; exact Hs.
+Qed.
+
+(* --------------------------- any arrival, at any point of any history *)
+Lemma history_step h1 p h2 r outs : Forall seq_octet (h1 ++ p :: h2) ->
+  crun [] (h1 ++ p :: h2) = Ok (r, outs) ->
+  exists r0 o0 r1, crun [] h1 = Ok (r0, o0) /\ registry_inv (rev h1) r0 /\ seq_octet p /\
+                   cstep r0 p = Ok (r1, nth (List.length h1) outs []).
+Proof.
+  intros Ho E.
+  apply crun_app in E as (r1 & o1 & o2 & E1 & E2 & ->).
+  apply crun_cons in E2 as (r2 & o3 & o4 & E3 & E4 & ->).
+  destruct (crun_ok [] h1) as (r1' & o1' & E1' & L). rewrite E1 in E1'. inversion E1'; subst r1' o1'.
+  rewrite app_nth2 by lia. rewrite L, Nat.sub_diag. cbn [nth].
+  apply Forall_app in Ho as [Ho1 Ho2]. inversion Ho2; subst.
+  exists r1, o1, r2. repeat split; auto. eapply registry_invariant; eauto.
+Qed.
+
+(* "exactly when its last missing segment arrives", for any interleaved
+   history: the callbacks made at an arrival are decided by the slot array
+   that the sub-history of the arriving segment's key alone has built. *)
+Theorem when_on_history h1 p h2 r outs : Forall seq_octet (h1 ++ p :: h2) ->
+  crun [] (h1 ++ p :: h2) = Ok (r, outs) ->
+  let out := nth (List.length h1) outs [] in
+  match hdr p with
+  | None => out = [[Some p]]
+  | Some c =>
+    let k := key_of p c in
+    let cur := cur_of (fst (srun None (hist_key k h1))) c in
+    (last_missing c cur ->
+       out = [put_pure (slot_ix c) p cur] /\
+       delivery_ok (p :: rev h1) k p (put_pure (slot_ix c) p cur) /\
+       nth_error cur (slot_ix c) = Some None) /\
+    (~ last_missing c cur -> out = [])
+  end.
+Proof.
+  intros Ho E. destruct (history_step _ _ _ _ _ Ho E) as (r0 & o0 & r1 & E0 & Hr & Hp & Es).
+  cbv zeta. pose proof (cstep_when _ _ _ _ _ Hr Hp Es) as W.
+  destruct (hdr p) as [c|] eqn:Hh; [|apply W].
+  cbv zeta in W. destruct (projection (key_of p c) _ _ _ _ E0) as [_ P]. cbn [lookup] in P.
+  rewrite <- P. destruct W as [W1 W2]. split; [|exact W2].
+  intros L. destruct (W1 L) as (A & _ & B & C). auto.
+Qed.
+
+(* --------------------------------------------------- the code before repair *)
+Definition a_ (ton npi : N) (no : bytes) : addr := {| a_ton := ton; a_npi := npi; a_no := no |}.
+Definition seg8 (id : N) (src dst : addr) (ref total seq : N) : dsm :=
+  {| d_id := id; d_src := src; d_dst := dst; d_udh := Some [(0, [ref; total; seq])] |}.
+
+(* D9: destination "12" with reference 3 and destination "1" with reference 23 get one key *)
+Lemma legacy_key_collision_refuted :
+  exists src d1 d2 r1 r2, d1 <> d2 /\ legacy_key src d1 r1 = legacy_key src d2 r2.
+Proof.
+  exists (a_ 1 1 (hx "313030")), (a_ 1 1 (hx "3132")), (a_ 1 1 (hx "31")), 3, 23.
+  split; [discriminate|]. vm_compute. reflexivity.
+Qed.
+(* ... and segments of the two messages are then delivered together *)
+Definition d9_history : list dsm :=
+  [ seg8 1 (a_ 1 1 (hx "313030")) (a_ 1 1 (hx "3132")) 3 2 1;
+    seg8 2 (a_ 1 1 (hx "313030")) (a_ 1 1 (hx "31")) 23 2 2 ].
+Lemma legacy_mixed_delivery_refuted :
+  exists h outs r cb q1 q2, crun_legacy [] h = Ok (r, outs) /\ In cb (List.concat outs) /\
+    In (Some q1) cb /\ In (Some q2) cb /\ d_dst q1 <> d_dst q2.
+Proof.
+  exists d9_history. eexists _, _, _, (nth 0 d9_history (seg8 0 (a_ 0 0 []) (a_ 0 0 []) 0 0 0)),
+    (nth 1 d9_history (seg8 0 (a_ 0 0 []) (a_ 0 0 []) 0 0 0)).
+  split; [vm_compute; reflexivity|]. cbn. split; [left; reflexivity|].
+  split; [left; reflexivity|]. split; [right; left; reflexivity|]. discriminate.
+Qed.
+(* the repaired combiner keeps them apart: nothing is delivered on that history *)
+Lemma d9_history_fixed : run_ids d9_history = Ok [[]; []].
+Proof. vm_compute. reflexivity. Qed.
+
+(* D8: sequence 0, sequence above the total, a later segment with a larger total *)
+Lemma legacy_combiner_panics_refuted :
+  exists h1 h2 h3, crun_legacy [] h1 = Panic /\ crun_legacy [] h2 = Panic /\ crun_legacy [] h3 = Panic.
+Proof.
+  exists [seg8 1 (a_ 0 0 []) (a_ 0 0 []) 7 2 0], [seg8 1 (a_ 0 0 []) (a_ 0 0 []) 7 2 3],
+         [seg8 1 (a_ 0 0 []) (a_ 0 0 []) 7 2 1; seg8 2 (a_ 0 0 []) (a_ 0 0 []) 7 3 3].
+  repeat split; vm_compute; reflexivity.
+Qed.
+(* D8: a later segment announcing a smaller total makes the completion count
+   succeed early: an incomplete message (nil slots) is delivered *)
+Lemma legacy_incomplete_delivery_refuted :
+  exists h r outs cb, crun_legacy [] h = Ok (r, outs) /\ In cb (List.concat outs) /\ In None cb.
+Proof.
+  exists [seg8 1 (a_ 0 0 []) (a_ 0 0 []) 7 3 1; seg8 2 (a_ 0 0 []) (a_ 0 0 []) 7 1 1].
+  eexists _, _, _. split; [vm_compute; reflexivity|]. cbn. split; [left; reflexivity|]. right; left; reflexivity.
+Qed.
+(* D7: ConcatenatedHeader on an element shorter than its format *)
+Lemma concatenated_header_legacy_refuted :
+  exists u1 u2, concatenated_header_legacy u1 = Panic /\ concatenated_header_legacy u2 = Panic.
+Proof. exists (Some [(0, [1; 2])]), (Some [(8, [0; 1; 2])]). split; vm_compute; reflexivity. Qed.
+
+(* --------------------------------------------------------- non-vacuity *)
+(* three messages interleaved, with a duplicate, a malformed segment and a plain PDU *)
+Definition ex_history : list dsm :=
+  let s := a_ 1 1 (hx "313030") in
+  [ seg8 1 s (a_ 1 1 (hx "3132")) 3 2 2;          (* A part 2 *)
+    seg8 2 s (a_ 1 1 (hx "31")) 23 2 1;           (* B part 1 *)
+    {| d_id := 3; d_src := s; d_dst := s; d_udh := None |};   (* plain *)
+    seg8 4 s (a_ 1 1 (hx "3132")) 3 2 2;          (* A part 2 again: overwrites *)
+    seg8 5 s (a_ 1 1 (hx "3132")) 3 2 0;          (* malformed: ignored *)
+    seg8 6 s (a_ 1 1 (hx "3132")) 3 2 1;          (* A part 1: completes A *)
+    seg8 7 s (a_ 1 1 (hx "31")) 23 2 2 ].         (* B part 2: completes B *)
+Lemma ex_history_trace : run_ids ex_history = Ok [[]; []; [[3]]; []; []; [[6; 4]]; [[2; 7]]].
+Proof. vm_compute. reflexivity. Qed.
+Lemma ex_history_octets : Forall seq_octet ex_history.
+Proof. repeat constructor; apply seq_octet_of_udh; vm_compute; repeat constructor. Qed.
